@@ -63,13 +63,12 @@ def loopBodyD (dec : Dec) (k : Eval → Out (Request × Eval)) (s : Eval) : Out 
   | (true, m) => do
     let m ← finish s.cfg m
     pure (.complete, { s with m := m, state := .complete })
-  | (false, m) => do
-    let iteration ← bumpIteration s.cfg.mode s.iteration
-    match overLimit s.cfg.maxIterations iteration with
+  | (false, m) =>
+    match overLimit s.cfg.maxIterations s.iteration with
     | true => .err .rTooManyIterations
     | false => do
       let (r, m') ← evaluateOneOperationD dec s.cfg m
-      afterOpD dec k { s with m := m, iteration := iteration, decodes := s.decodes + 1 } r m'
+      afterOpD dec k { s with m := m, iteration := saturatingInc s.iteration, decodes := s.decodes + 1 } r m'
 
 def evaluateInternalD (dec : Dec) : Nat → Eval → Out (Request × Eval)
   | 0, _ => .diverge
